@@ -94,3 +94,189 @@ theorem fbLoop_shift (pos0 : Bool) (k : Nat) (hk : 0 < k) (n : Nat) :
         · simp only [tokenAt_shift]
 
 end Jomini.TextReader
+
+namespace Jomini.TextReader
+open Jomini Jomini.TextReader.Spec
+
+/-! ### decomposition of a window into the part the scan skips and the part it stops at -/
+
+/-- `Skips pos0 pre i bom bom'`: scanning in top mode at offset `i`, `next_opt_fallback` passes over all of
+`pre` (blanks, complete comments, a BOM at the very start) and is back in top mode with BOM state `bom'`. -/
+inductive Skips (pos0 : Bool) : Bytes → Nat → Bom → Bom → Prop
+  | nil (i : Nat) (bom : Bom) : Skips pos0 [] i bom bom
+  | blank {c : UInt8} {pre : Bytes} {i : Nat} {bom bom' : Bom} :
+      isBlank c = true → Skips pos0 pre (i + 1) bom bom' → Skips pos0 (c :: pre) i bom bom'
+  | comment {a pre : Bytes} {i : Nat} {bom bom' : Bom} :
+      (∀ x ∈ a, (x == 10) = false) → Skips pos0 pre (i + a.length + 2) bom bom' →
+      Skips pos0 (35 :: (a ++ 10 :: pre)) i bom bom'
+  | bom {pre : Bytes} {bom' : Bom} :
+      pos0 = true → Skips pos0 pre 3 .present bom' →
+      Skips pos0 (0xef :: 0xbb :: 0xbf :: pre) 0 .unknown bom'
+
+theorem fbLoop_comment_run (pos0 : Bool) (a : Bytes) (ha : ∀ x ∈ a, (x == 10) = false) (x : Bytes) (s i : Nat) (bom : Bom) :
+    fbLoop pos0 (a ++ 10 :: x) (.comment s) i bom = fbLoop pos0 x .top (i + a.length + 1) bom := by
+  induction a generalizing i with
+  | nil => simp [fbLoop_comment_cons]
+  | cons c a ih =>
+    have hc : (c == 10) = false := ha c (by simp)
+    simp only [List.cons_append, fbLoop_comment_cons, hc]
+    rw [ih (fun x hx => ha x (by simp [hx]))]
+    simp; congr 1; omega
+
+theorem fbLoop_comment_open (pos0 : Bool) (a : Bytes) (ha : ∀ x ∈ a, (x == 10) = false) (s i : Nat) (bom : Bom) :
+    fbLoop pos0 a (.comment s) i bom = (bom, .refill .none (i + a.length - s) 0) := by
+  induction a generalizing i with
+  | nil => simp [fbLoop]
+  | cons c a ih =>
+    have hc : (c == 10) = false := ha c (by simp)
+    simp only [fbLoop_comment_cons, hc]
+    rw [ih (fun x hx => ha x (by simp [hx]))]
+    simp; congr 1; omega
+
+theorem Skips.fbLoop {pos0 : Bool} {pre : Bytes} {i : Nat} {bom bom' : Bom} (h : Skips pos0 pre i bom bom') (x : Bytes) :
+    fbLoop pos0 (pre ++ x) .top i bom = fbLoop pos0 x .top (i + pre.length) bom' := by
+  induction h with
+  | nil i bom => simp
+  | blank hb _ ih => simp only [List.cons_append, fbLoop_top_cons, hb, if_true, List.length_cons]; rw [ih]; congr 1; omega
+  | @comment a pre i bom bom' ha _ ih =>
+    have h35 : isBlank 35 = false := by decide
+    simp only [List.cons_append, fbLoop_top_cons, h35]
+    simp only [beq_self_eq_true, if_true, List.append_assoc, List.cons_append, Bool.false_eq_true, if_false]
+    rw [fbLoop_comment_run pos0 a ha, show i + 1 + a.length + 1 = i + a.length + 2 by omega, ih]
+    simp; congr 1; omega
+  | @bom pre bom' hp _ ih =>
+    have hb : isBlank 0xef = false := by decide
+    subst hp
+    simp only [List.cons_append, fbLoop_top_cons, hb]
+    simp only [Bool.false_eq_true, if_false]
+    rw [show ((0xef : UInt8) == 35) = false by decide]
+    simp only [Bool.false_eq_true, if_false, beq_self_eq_true, Bool.and_self, if_true, bne_self_eq_false, Bool.not_true, Bool.or_self]
+    rw [ih]; simp; congr 1; omega
+
+end Jomini.TextReader
+
+namespace Jomini.TextReader
+open Jomini Jomini.TextReader.Spec
+
+theorem split_newline (l : Bytes) :
+    (∀ x ∈ l, (x == 10) = false) ∨ ∃ a r, l = a ++ 10 :: r ∧ ∀ x ∈ a, (x == 10) = false := by
+  induction l with
+  | nil => left; simp
+  | cons c l ih =>
+    by_cases hc : (c == 10) = true
+    · right; refine ⟨[], l, ?_, by simp⟩
+      have : c = 10 := by simpa using hc
+      simp [this]
+    · rcases ih with h | ⟨a, r, rfl, ha⟩
+      · left; intro x hx; simp at hx; rcases hx with rfl | hx
+        · simpa using hc
+        · exact h x hx
+      · right; refine ⟨c :: a, r, by simp, ?_⟩
+        intro x hx; simp at hx; rcases hx with rfl | hx
+        · simpa using hc
+        · exact ha x hx
+
+/-- the BOM arm inspects the window: first byte `0xEF`, BOM state unknown, scan offset 0, stream position 0 -/
+def BomCheck (pos0 : Bool) (c : UInt8) (j : Nat) (bom : Bom) : Prop :=
+  (c == 0xef) = true ∧ bom = .unknown ∧ j = 0 ∧ pos0 = true
+
+instance (pos0 : Bool) (c : UInt8) (j : Nat) (bom : Bom) : Decidable (BomCheck pos0 c j bom) := by
+  unfold BomCheck; infer_instance
+
+/-- what the scan stops at, after the skipped prefix -/
+inductive Tail (pos0 : Bool) (j : Nat) (bom : Bom) : Bytes → Prop
+  | empty : Tail pos0 j bom []
+  | comment (a : Bytes) : (∀ x ∈ a, (x == 10) = false) → Tail pos0 j bom (35 :: a)
+  | token (c : UInt8) (r : Bytes) : isBlank c = false → (c == 35) = false → ¬BomCheck pos0 c j bom → Tail pos0 j bom (c :: r)
+  | bomShort (r : Bytes) : BomCheck pos0 0xef j bom → r.length < 2 → Tail pos0 j bom (0xef :: r)
+  | bomNo (d e : UInt8) (r : Bytes) : BomCheck pos0 0xef j bom → (d == 0xbb && e == 0xbf) = false →
+      Tail pos0 j bom (0xef :: d :: e :: r)
+
+theorem decompose (pos0 : Bool) (n : Nat) : ∀ (w : Bytes) (i : Nat) (bom : Bom), w.length ≤ n →
+    ∃ pre tail bom', w = pre ++ tail ∧ Skips pos0 pre i bom bom' ∧ Tail pos0 (i + pre.length) bom' tail := by
+  induction n with
+  | zero =>
+    intro w i bom hl
+    have : w = [] := List.eq_nil_of_length_eq_zero (by omega)
+    subst this
+    exact ⟨[], [], bom, rfl, .nil _ _, .empty⟩
+  | succ n ih =>
+    intro w i bom hl
+    cases w with
+    | nil => exact ⟨[], [], bom, rfl, .nil _ _, .empty⟩
+    | cons c rest =>
+      have hr : rest.length ≤ n := by simp at hl; omega
+      by_cases hb : isBlank c = true
+      · obtain ⟨pre, tail, bom', e, hs, ht⟩ := ih rest (i + 1) bom hr
+        refine ⟨c :: pre, tail, bom', by simp [e], .blank hb hs, ?_⟩
+        have : i + (c :: pre).length = i + 1 + pre.length := by simp; omega
+        rw [this]; exact ht
+      by_cases h35 : (c == 35) = true
+      · have hc : c = 35 := by simpa using h35
+        subst hc
+        rcases split_newline rest with ha | ⟨a, r, rfl, ha⟩
+        · exact ⟨[], 35 :: rest, bom, rfl, .nil _ _, .comment rest ha⟩
+        · have hrl : r.length ≤ n := by simp at hr; omega
+          obtain ⟨pre, tail, bom', e, hs, ht⟩ := ih r (i + a.length + 2) bom hrl
+          refine ⟨35 :: (a ++ 10 :: pre), tail, bom', by simp [e], .comment ha hs, ?_⟩
+          have : i + (35 :: (a ++ 10 :: pre)).length = i + a.length + 2 + pre.length := by simp; omega
+          rw [this]; exact ht
+      by_cases hbc : BomCheck pos0 c i bom
+      · obtain ⟨hc, hbom, hi, hp⟩ := hbc
+        have hc' : c = 0xef := by simpa using hc
+        subst hc' hbom hi
+        rcases rest with _ | ⟨d, _ | ⟨e, r⟩⟩
+        · exact ⟨[], [0xef], .unknown, rfl, .nil _ _, .bomShort [] ⟨hc, rfl, rfl, hp⟩ (by simp)⟩
+        · exact ⟨[], [0xef, d], .unknown, rfl, .nil _ _, .bomShort [d] ⟨hc, rfl, rfl, hp⟩ (by simp)⟩
+        · by_cases hbb : (d == 0xbb && e == 0xbf) = true
+          · have hrl : r.length ≤ n := by simp at hr; omega
+            obtain ⟨pre, tail, bom', e', hs, ht⟩ := ih r 3 .present hrl
+            have hd : d = 0xbb := by simp at hbb; exact hbb.1
+            have he : e = 0xbf := by simp at hbb; exact hbb.2
+            subst hd he
+            refine ⟨0xef :: 0xbb :: 0xbf :: pre, tail, bom', by simp [e'], .bom hp hs, ?_⟩
+            have : 0 + (0xef :: 0xbb :: 0xbf :: pre).length = 3 + pre.length := by simp; omega
+            rw [this]; exact ht
+          · exact ⟨[], 0xef :: d :: e :: r, .unknown, rfl, .nil _ _,
+              .bomNo d e r ⟨hc, rfl, rfl, hp⟩ (by simpa using hbb)⟩
+      · exact ⟨[], c :: rest, bom, rfl, .nil _ _, .token c rest (by simpa using hb) (by simpa using h35) hbc⟩
+
+/-- BOM state after the scan has started a token at byte `c` -/
+def bomAfter (c : UInt8) (bom : Bom) : Bom := if c == 0xef && bom == .unknown then .notPresent else bom
+
+theorem fbLoop_token {pos0 : Bool} {c : UInt8} {r : Bytes} {j : Nat} {bom : Bom}
+    (hb : isBlank c = false) (h35 : (c == 35) = false) (hbc : ¬BomCheck pos0 c j bom) :
+    fbLoop pos0 (c :: r) .top j bom = (bomAfter c bom, tokenAt c r j) := by
+  rw [fbLoop_top_cons]
+  simp only [hb, h35, Bool.false_eq_true, if_false, bomAfter]
+  by_cases he : (c == 0xef && bom == .unknown) = true
+  · simp only [he, if_true]
+    have : (j != 0 || !pos0) = true := by
+      simp only [BomCheck] at hbc
+      simp only [Bool.and_eq_true, beq_iff_eq] at he
+      by_cases hj : j = 0
+      · by_cases hp : pos0 = true
+        · exact absurd ⟨by simp [he.1], he.2, hj, hp⟩ hbc
+        · simp at hp; simp [hp]
+      · simp [hj]
+    simp only [this, if_true]
+  · simp only [he, Bool.false_eq_true, if_false]
+
+theorem fbLoop_bomShort {pos0 : Bool} {r : Bytes} {j : Nat} {bom : Bom}
+    (hbc : BomCheck pos0 0xef j bom) (hr : r.length < 2) :
+    fbLoop pos0 (0xef :: r) .top j bom = (bom, .bomFill) := by
+  obtain ⟨_, hbom, hj, hp⟩ := hbc
+  subst hbom hj hp
+  rcases r with _ | ⟨d, _ | ⟨e, r⟩⟩
+  · simp [fbLoop_top_cons, isBlank]
+  · simp [fbLoop_top_cons, isBlank]
+  · simp at hr; omega
+
+theorem fbLoop_bomNo {pos0 : Bool} {d e : UInt8} {r : Bytes} {j : Nat} {bom : Bom}
+    (hbc : BomCheck pos0 0xef j bom) (hn : (d == 0xbb && e == 0xbf) = false) :
+    fbLoop pos0 (0xef :: d :: e :: r) .top j bom = (.notPresent, tokenAt 0xef (d :: e :: r) j) := by
+  obtain ⟨_, hbom, hj, hp⟩ := hbc
+  subst hbom hj hp
+  simp [fbLoop_top_cons, isBlank, hn]
+
+end Jomini.TextReader
